@@ -474,13 +474,14 @@ Proof.
 Qed.
 Print Assumptions trainer_defaults.
 
-(* the statement about defaults is not vacuous: these are the unfed options *)
+(* the statement about defaults is not vacuous: there are unfed options in every section
+   (membership, not equality: a new schema field that no builder argument feeds simply joins
+   the list and is covered by the *_defaults theorems above) *)
 Example ex_unfed_options :
-  unfed (map snd TRAINER_PATHS ++ map snd TRAINER_PROCESSED) cls_TrainerConfig =
-    [["val_data_loader"; "shuffle"]; ["profiler"]; ["trainer_strategy"]] /\
-  unfed (map snd DATA_PATHS ++ map snd DATA_PROCESSED) cls_DataConfig = [["skeletons"]] /\
-  unfed (map snd MODEL_PATHS ++ map snd MODEL_PROCESSED) cls_ModelConfig = [["total_params"]].
-Proof. vm_compute. repeat split. Qed.
+  In ["profiler"] (unfed (map snd TRAINER_PATHS ++ map snd TRAINER_PROCESSED) cls_TrainerConfig) /\
+  In ["skeletons"] (unfed (map snd DATA_PATHS ++ map snd DATA_PROCESSED) cls_DataConfig) /\
+  In ["total_params"] (unfed (map snd MODEL_PATHS ++ map snd MODEL_PROCESSED) cls_ModelConfig).
+Proof. vm_compute. repeat split; tauto. Qed.
 
 (* =================================================== interpreted parameters *)
 (* backbone_config, head_configs, lr_scheduler: option names and dicts *)
